@@ -476,4 +476,411 @@ theorem no_write_no_change (kind : Kind) (op : Op) (w : World) (br : BR) (f : Fa
                 · exact absurd hfin (fun hf => fin0 _ 1 (by decide) hf)
   · rfl
 
+/-! ## C05 — whole releases -/
+
+/-- one event in the life of a release: a call of the control plane (any of the three, with any BatchRelease
+    fields — UID, plan, current batch, partition — and any API fault), or the workload's own controller / the
+    user's scaling changing the status resp. the replica count -/
+inductive Ev where
+  | call (op : Op) (br : BR) (f : Fault)
+  | status (st : Status)
+  | scale (r : Int)
+  deriving Repr
+
+/-- the world after an event; `none` = the controller process panicked -/
+def applyEv (kind : Kind) (w : World) : Ev → Option World
+  | .call op br f =>
+    match call kind op w br f with
+    | .val o => some o.world
+    | .panic => none
+  | .status st => some { w with wl := w.wl.map (fun wl => { wl with status := st }) }
+  | .scale r => some { w with wl := w.wl.map (fun wl => { wl with replicas := some r }) }
+
+def run (kind : Kind) (w : World) : List Ev → Option World
+  | [] => some w
+  | e :: t =>
+    match applyEv kind w e with
+    | some w' => run kind w' t
+    | none => none
+
+/-- no `Initialize` of the history falls into the known finding `savedMinReadyZero` -/
+def guardFree (kind : Kind) (w : World) : List Ev → Bool
+  | [] => true
+  | e :: t =>
+    (match e, w.wl with
+     | .call .init br _, some wl => !gSavedZero br wl
+     | _, _ => true) &&
+    (match applyEv kind w e with
+     | some w' => guardFree kind w' t
+     | none => true)
+
+theorem effSetting_status (kind : Kind) (wl : Workload) (st : Status) :
+    effSetting kind { wl with status := st } = effSetting kind wl := by
+  cases kind <;> rfl
+
+theorem effSetting_replicas (kind : Kind) (wl : Workload) (r : Option Int) :
+    effSetting kind { wl with replicas := r } = effSetting kind wl := by
+  cases kind <;> rfl
+
+theorem inv_applyEv (kind : Kind) (o : Orig) (w w' : World) (e : Ev)
+    (hi : inv kind o w = true) (he : applyEv kind w e = some w')
+    (hg : ∀ br f, e = .call .init br f → ∀ wl, w.wl = some wl → gSavedZero br wl = false) :
+    inv kind o w' = true := by
+  cases e with
+  | call op br f =>
+    simp only [applyEv] at he
+    split at he
+    · rename_i out hc
+      simp only [Option.some.injEq] at he
+      subst he
+      have := inv_preserved_partial kind op o w br f out hc (by intro hop wl hw; subst hop; exact hg br f rfl wl hw)
+      unfold invPreserved at this
+      simp only [hi, if_true] at this
+      exact this
+    · cases he
+  | status st =>
+    simp only [applyEv, Option.some.injEq] at he
+    subst he
+    unfold inv at hi ⊢
+    cases hw : w.wl with
+    | none => simpa [hw] using hi
+    | some wl =>
+      rw [hw] at hi
+      simp only [Option.map_some]
+      unfold invWl at hi ⊢
+      simp only [effSetting_status]
+      exact hi
+  | scale r =>
+    simp only [applyEv, Option.some.injEq] at he
+    subst he
+    unfold inv at hi ⊢
+    cases hw : w.wl with
+    | none => simpa [hw] using hi
+    | some wl =>
+      rw [hw] at hi
+      simp only [Option.map_some]
+      unfold invWl at hi ⊢
+      simp only [effSetting_replicas]
+      exact hi
+
+/-- **C05 (invariant over histories)** — along every finite history of control-plane calls (any operation order,
+    any plan / batch / partition / BatchRelease UID, any API fault in any attempt), status changes and scalings,
+    the release invariant holds at every point — outside the known finding `savedMinReadyZero`. -/
+theorem inv_run_partial (kind : Kind) (o : Orig) (evs : List Ev) (w w' : World)
+    (hi : inv kind o w = true) (hg : guardFree kind w evs = true) (hr : run kind w evs = some w') :
+    inv kind o w' = true := by
+  induction evs generalizing w with
+  | nil => simp only [run, Option.some.injEq] at hr; subst hr; exact hi
+  | cons e t ih =>
+    unfold run at hr
+    unfold guardFree at hg
+    cases he : applyEv kind w e with
+    | none => rw [he] at hr; cases hr
+    | some w1 =>
+      rw [he] at hr hg
+      simp only [Bool.and_eq_true] at hg
+      apply ih w1 _ hg.2 hr
+      apply inv_applyEv kind o w w1 e hi he
+      intro br f hee wl hw
+      subst hee
+      have := hg.1
+      simp only [hw, Bool.not_eq_true'] at this
+      exact this
+
+/-- the ghost of a release that starts on workload `wl` -/
+def origOf (kind : Kind) (wl : Workload) : Orig := { setting := effSetting kind wl, stype := wl.stype }
+
+/-- a workload that carries neither annotation satisfies the invariant for its own settings -/
+theorem inv_fresh (kind : Kind) (w : World) (wl : Workload) (hw : w.wl = some wl)
+    (hs : wl.saved = .none) (hc : wl.ctl = .none) : inv kind (origOf kind wl) w = true := by
+  unfold inv
+  rw [hw]
+  simp only [Bool.and_eq_true]
+  refine ⟨effSetting_complete kind wl, ?_⟩
+  rw [invWl_none kind _ wl hs]
+  exact ⟨⟨rfl, hc⟩, Or.inr rfl⟩
+
+/-- **C05 `finalize_restores_original`** — take any workload without rollout annotations, any HPAs and
+    ReplicaSets; run any history `initialize ; (upgradeBatch | initialize | finalize)*` in any order, with API
+    faults after any write of any attempt, status changes and scalings in between (and no `Initialize` inside the
+    known finding `savedMinReadyZero`).  Whenever afterwards a `Finalize` — under any fault — reports success with
+    `batchPartition` cleared, the workload has exactly the minReadySeconds, maxSurge, maxUnavailable and
+    progressDeadlineSeconds it started with and neither the saved-settings nor the control annotation. -/
+theorem finalize_restores_original (kind : Kind) (w0 : World) (wl0 : Workload) (evs : List Ev) (w : World)
+    (br : BR) (f : Fault) (out : CallOut)
+    (hw0 : w0.wl = some wl0) (hs0 : wl0.saved = .none) (hc0 : wl0.ctl = .none)
+    (hg : guardFree kind w0 evs = true) (hr : run kind w0 evs = some w)
+    (hfin : cpFinalize kind w br f = .val out) (hd : finalizeDone w br out = true) :
+    ∃ wl', out.world.wl = some wl' ∧ wl'.saved = .none ∧ wl'.ctl = .none ∧
+      effSetting kind wl' = effSetting kind wl0 := by
+  have hi := inv_run_partial kind (origOf kind wl0) evs w0 w (inv_fresh kind w0 wl0 hw0 hs0 hc0) hg hr
+  have := finalize_restores_original_step kind (origOf kind wl0) w br f out hfin
+  unfold finalizeRestores at this
+  simp only [hi, hd, and_self, if_true] at this
+  cases hwl : out.world.wl with
+  | none => rw [hwl] at this; cases this
+  | some wl' =>
+    rw [hwl] at this
+    simp only [decide_eq_true_eq] at this
+    exact ⟨wl', rfl, this.1, this.2.1, this.2.2⟩
+
+/-! ## C09 — panics, and C05 liveness of the retry -/
+
+theorem findIn_noPanic (l : List HPA) (h : l.any (fun h => h.av = .absent) = false) : findIn l ≠ .panic := by
+  induction l with
+  | nil => simp [findIn]
+  | cons a t ih =>
+    simp only [List.any_cons, Bool.or_eq_false_iff, decide_eq_false_iff_not] at h
+    unfold findIn
+    simp only [h.1, if_false]
+    split
+    · simp
+    · exact ih h.2
+
+theorem Out.exists_of_ne_panic {α : Type} (o : Out α) (h : o ≠ .panic) : ∃ a, o = .val a := by
+  cases o with
+  | val a => exact ⟨a, rfl⟩
+  | panic => exact absurd rfl h
+
+theorem findVer_noPanic (l : List HPA) (b : Bool) (h : l.any (fun h => h.av = .absent) = false) :
+    findVer l b ≠ .panic := by
+  unfold findVer
+  cases b
+  · simpa using findIn_noPanic l h
+  · simp
+
+theorem findHPA_noPanic (w : World) (f : Fault) (h : gNoApiVersion w = false) : findHPA w f ≠ .panic := by
+  simp only [gNoApiVersion, Bool.or_eq_false_iff] at h
+  unfold findHPA
+  cases h2 : findVer w.hpaV2 f.listV2 with
+  | panic => exact absurd h2 (findVer_noPanic _ _ h.1)
+  | val o2 =>
+    cases o2 with
+    | some k => simp
+    | none =>
+      simp only []
+      cases h1 : findVer w.hpaV1 f.listV1 with
+      | panic => exact absurd h1 (findVer_noPanic _ _ h.2)
+      | val o1 => cases o1 <;> simp
+
+theorem disableHPA_noPanic (w : World) (f : Fault) (n : Nat) (h : gNoApiVersion w = false) :
+    disableHPA w f n ≠ .panic := by
+  unfold disableHPA
+  cases hf : findHPA w f with
+  | panic => exact absurd hf (findHPA_noPanic w f h)
+  | val o =>
+    cases o with
+    | none => simp
+    | some p =>
+      obtain ⟨v, k⟩ := p
+      simp only []
+      split
+      · simp
+      · split <;> simp
+
+theorem restoreHPA_noPanic (w : World) (f : Fault) (n : Nat) (h : gNoApiVersion w = false) :
+    restoreHPA w f n ≠ .panic := by
+  unfold restoreHPA
+  cases hf : findHPA w f with
+  | panic => exact absurd hf (findHPA_noPanic w f h)
+  | val o =>
+    cases o with
+    | none => simp
+    | some p =>
+      obtain ⟨v, k⟩ := p
+      simp only []
+      split
+      · simp
+      · split <;> simp
+
+theorem finishHPA_noPanic (w : World) (f : Fault) (n : Nat) (h : gNoApiVersion w = false) :
+    finishHPA w f n ≠ .panic := by
+  unfold finishHPA
+  cases hr : restoreHPA w f n with
+  | panic => exact absurd hr (restoreHPA_noPanic w f n h)
+  | val r =>
+    obtain ⟨w1, b, n1⟩ := r
+    cases b <;> simp
+
+theorem deployMaxUnavailable_noPanic (d : Workload) (R : Int) (ru : RU) (hR : d.replicas = some R) (hru : d.ru = some ru) :
+    deployMaxUnavailable d ≠ .panic := by
+  unfold deployMaxUnavailable
+  rw [hR, hru]
+  simp only []
+  split
+  · simp
+  · split
+    · simp
+    · split <;> simp
+
+theorem waitAll_noPanic (d : Workload) (R : Int) (ru : RU) (hR : d.replicas = some R) (hru : d.ru = some ru) :
+    waitAllUpdatedAndReady d ≠ .panic := by
+  unfold waitAllUpdatedAndReady
+  cases hm : deployMaxUnavailable d with
+  | panic => exact absurd hm (deployMaxUnavailable_noPanic d R ru hR hru)
+  | val m =>
+    split
+    · simp
+    · split <;> simp
+
+/-- the wait of the Deployment control never panics on a patched object: the patch creates `rollingUpdate` -/
+theorem waitStep_noPanic_patched (kind : Kind) (wl : Workload) (s : Setting) (hR : wl.replicas.isSome = true) :
+    waitStep kind wl (finalizePatch kind s wl) ≠ .panic := by
+  cases kind
+  · obtain ⟨R, hR'⟩ := Option.isSome_iff_exists.1 hR
+    exact waitAll_noPanic _ R ⟨s.maxSurge, s.maxUnavailable⟩ hR' rfl
+  · simp [waitStep]
+
+theorem finishWait_noPanic (kind : Kind) (wl d : Workload) (w1 : World) (f : Fault) (n : Nat)
+    (hw : waitStep kind wl d ≠ .panic) (h : gNoApiVersion w1 = false) : finishWait kind wl d w1 f n ≠ .panic := by
+  unfold finishWait
+  cases hb : waitStep kind wl d with
+  | panic => exact absurd hb hw
+  | val b =>
+    cases b
+    · simp
+    · exact finishHPA_noPanic w1 f n h
+
+/-- **C09 (partial)** — for every world, BatchRelease and fault: none of the three calls panics, unless the
+    workload has no `spec.replicas`, or `UpgradeBatch` is asked for a batch outside the plan, or (known finding
+    `hpaNoApiVersion`) some HPA of the namespace has a `scaleTargetRef` without `apiVersion`. -/
+theorem no_panic_partial (kind : Kind) (op : Op) (w : World) (br : BR) (f : Fault)
+    (hA : panicAllowed op w br = false) (hG : gNoApiVersion w = false) :
+    ∃ out, call kind op w br f = .val out := by
+  apply Out.exists_of_ne_panic
+  unfold panicAllowed at hA
+  simp only [Bool.or_eq_false_iff] at hA
+  cases hw : w.wl with
+  | none => cases op <;> simp only [call, cpInitialize, cpUpgradeBatch, cpFinalize, hw] <;> split <;> simp
+  | some wl =>
+    have hR := hA.1
+    rw [hw] at hR
+    simp only [Option.isNone_eq_false_iff] at hR
+    obtain ⟨R, hR'⟩ := Option.isSome_iff_exists.1 hR
+    cases op with
+    | init =>
+      simp only [call, cpInitialize, hw, hR']
+      split
+      · simp
+      · split
+        · simp
+        · cases hr : disableHPA w f 0 with
+          | panic => exact absurd hr (disableHPA_noPanic w f 0 hG)
+          | val r =>
+            obtain ⟨w1, b1, n1⟩ := r
+            cases b1
+            · simp
+            · simp only []
+              cases hs : stableRSStep kind w1 f n1 with
+              | mk w2 r2 =>
+                obtain ⟨b2, n2⟩ := r2
+                cases b2
+                · simp
+                · simp only []
+                  cases getSetting wl.saved with
+                  | none => simp
+                  | some s => simp only []; split <;> simp
+    | upgrade =>
+      have hE := hA.2
+      simp only [decide_true, Bool.true_and, Option.isNone_eq_false_iff] at hE
+      obtain ⟨e, he⟩ := Option.isSome_iff_exists.1 hE
+      simp only [call, cpUpgradeBatch, hw, hR', he]
+      split
+      · simp
+      · split
+        · simp
+        · split
+          · simp
+          · split
+            · simp
+            · split <;> simp
+    | fin =>
+      simp only [call, cpFinalize, hw, hR']
+      split
+      · simp
+      · split
+        · simp
+        · split
+          · apply finishWait_noPanic _ _ _ _ _ _ _ hG
+            cases kind <;> simp [waitStep, waitAllUpdatedAndReady, emptyDeployment, deployMaxUnavailable]
+          · cases getSetting wl.saved with
+            | none => simp
+            | some s =>
+              simp only []
+              split
+              · simp
+              · exact finishWait_noPanic _ _ _ _ _ _ (waitStep_noPanic_patched kind wl s hR) (by simpa [gNoApiVersion] using hG)
+
+theorem restoreHPA_noFault_ok (w : World) (n : Nat) (w1 : World) (b : Bool) (n1 : Nat)
+    (h : restoreHPA w noFault n = .val (w1, b, n1)) : b = true := by
+  unfold restoreHPA at h
+  split at h
+  · cases h
+  · simp only [Out.val.injEq, Prod.mk.injEq] at h; exact h.2.1.symm
+  · split at h
+    · simp only [Out.val.injEq, Prod.mk.injEq] at h; exact h.2.1.symm
+    · simp only [canWrite, noFault, if_true, Out.val.injEq, Prod.mk.injEq] at h; exact h.2.1.symm
+
+theorem finishHPA_noFault_ok (w : World) (n : Nat) (hH : gNoApiVersion w = false) :
+    ∃ out, finishHPA w noFault n = .val out ∧ out.res = .ok := by
+  unfold finishHPA
+  cases hr : restoreHPA w noFault n with
+  | panic => exact absurd hr (restoreHPA_noPanic w noFault n hH)
+  | val r =>
+    obtain ⟨w1, b, n1⟩ := r
+    have := restoreHPA_noFault_ok w n w1 b n1 hr
+    subst this
+    exact ⟨_, rfl, rfl⟩
+
+theorem waitStep_of_readyNow (kind : Kind) (wl d : Workload) (hst : d.status = wl.status)
+    (h : readyNow kind d = true) : waitStep kind wl d = .val true := by
+  cases kind
+  · simp only [readyNow] at h
+    simp only [waitStep]
+    cases hw : waitAllUpdatedAndReady d with
+    | panic => rw [hw] at h; cases h
+    | val b => rw [hw] at h; simp only at h; rw [h]
+  · simp only [readyNow, hst] at h
+    simp only [waitStep, h]
+
+/-- **C05 (the retry completes)** — from every world that satisfies the release invariant — in particular after any
+    number of earlier attempts that were cut short by faults — one undisturbed `Finalize` (with `batchPartition`
+    cleared, no HPA without `apiVersion` in the namespace) on a workload whose pods are all updated and ready
+    with respect to the *original* settings reports success; by `finalize_restores_original_step` the workload
+    then has its original settings. -/
+theorem finalize_completes (kind : Kind) (o : Orig) (w : World) (br : BR) (wl : Workload)
+    (hi : inv kind o w = true) (hw : w.wl = some wl) (hR : wl.replicas.isSome = true) (hp : br.partitioned = false)
+    (hH : gNoApiVersion w = false) (hready : readyNow kind (finalizePatch kind o.setting wl) = true) :
+    ∃ out, cpFinalize kind w br noFault = .val out ∧ out.res = .ok := by
+  obtain ⟨R, hR'⟩ := Option.isSome_iff_exists.1 hR
+  have hstat : (finalizePatch kind o.setting wl).status = wl.status := by cases kind <;> rfl
+  unfold inv at hi
+  rw [hw] at hi
+  simp only [Bool.and_eq_true] at hi
+  have hg : noFault.get = false := rfl
+  simp only [cpFinalize, hg, Bool.false_eq_true, if_false, hw, hR', hp]
+  by_cases hr : restored wl = true
+  · simp only [hr, if_true]
+    have hwt : waitStep kind wl emptyDeployment = .val true := by
+      cases kind
+      · rfl
+      · have := waitStep_of_readyNow .cloneSet wl _ hstat hready
+        simpa [waitStep] using this
+    unfold finishWait
+    rw [hwt]
+    exact finishHPA_noFault_ok w 0 hH
+  · have hr' : restored wl = false := by simpa using hr
+    simp only [hr', Bool.false_eq_true, if_false]
+    cases hsv : wl.saved with
+    | none => simp [restored, hsv] at hr'
+    | bad => rw [invWl_bad kind o wl hsv] at hi; exact absurd hi.2 (by decide)
+    | some s =>
+      have hso := ((invWl_some kind o wl s hsv).1 hi.2).1
+      subst hso
+      have hcw : canWrite noFault 0 = true := rfl
+      simp only [getSetting, hcw, not_true_eq_false, if_false]
+      unfold finishWait
+      rw [waitStep_of_readyNow kind wl _ hstat hready]
+      exact finishHPA_noFault_ok _ 1 (by simpa [gNoApiVersion] using hH)
+
 end RV.Props.CtlBlueGreen
